@@ -107,6 +107,33 @@ PROFILES["C16"] = {"level": "exploration", "level_text": LEVEL_TEXT["C16"],
                    "components": {"real_code": ["net_transport.go", "commands.go", "util.go (msgpack helpers)"], "stubs": ["StreamLayer / net.Conn (SimStreamLayer)", "RPC consumer (recording handler)"],
                                   "replaced": ["goroutine scheduling at every Read/Write/Dial (seeded chooser)", "clock (synctest)"]}}
 
+# Auxiliary input tables (scenario family S4, sim/dst/s4_aux.go): the part of C05 / C07 / C11 that is a pure
+# function of its input and that the properties quantify over "exhaustively". Plain enumeration against a
+# small reference, not simulation; it rides along so that a change to the arithmetic that the cluster workload
+# does not reach is still reported.
+DEFAULT_RULE = ("each evaluation is one simulated run fully determined by (VERIF_SEED, run index): swarm configuration, workload, schedule and fault sequence are drawn "
+                "from seeded streams. A run is non-trivial when at least one injected fault actually fired and at least one client write was acknowledged; two runs are "
+                "distinct when the hash of their sequence of abstract cluster states (per node: role, term, last index, commit index, snapshot index; sampled every 32 "
+                "scheduling steps) differs. distinct_nontrivial counts distinct trajectory hashes among non-trivial runs.")
+def _aux(name, slices, what):
+    return {"scenario": name, "profile": name, "quick_runs": slices + 24, "quick_budget_s": 25, "thorough_runs": slices + 20000, "thorough_budget_s": 300}, \
+           (" In addition %d + n auxiliary evaluations (scenario %s, not simulation): %s; each table slice or sample batch counts as one evaluation, always non-trivial, "
+            "distinct by slice number." % (slices, name, what))
+_sc, _txt = _aux("AUX05", 27, "the commitment tracker (commitment.go) against the rule 'largest index held by a strict majority of the voters, not below the start index, monotone, "
+                 "notify on advance': all 27 absent/voter/non-voter configurations over 3 servers x start index 0-3 x every sequence of 4 match() calls with index 0-3 on 4 ids "
+                 "(262144 sequences per slice), then seeded sequences of 3-32 match/setConfiguration calls over 5 servers")
+PROFILES["C05"]["scenarios"] = PROFILES["C05"]["scenarios"] + [_sc]
+PROFILES["C05"]["rule"] = DEFAULT_RULE + _txt
+_sc, _txt = _aux("AUX07", 16, "nextConfiguration/checkConfiguration (configuration.go) against the documented meaning of each command: all 256 assignments of absent/voter/non-voter/"
+                 "staging to 4 servers x 5 commands x 5 target ids (one new) x 5 addresses (own, new, two other servers', empty) x prevIndex {0, current, current-1, current+1}, "
+                 "then seeded configurations of 5-6 servers in permuted order")
+PROFILES["C07"]["scenarios"] = PROFILES["C07"]["scenarios"] + [_sc]
+PROFILES["C07"]["rule"] = DEFAULT_RULE + _txt
+_sc, _txt = _aux("AUX11", 13, "compactLogsWithTrailing (snapshot.go) against 'deletes one prefix range, nothing above the snapshot, nothing among the last TrailingLogs indexes': trailing 0-12 "
+                 "(one per slice) x first index 1-6 x last index first-1..12 x snapshot index 0-13 x cached last index 0-13, then seeded large values")
+PROFILES["C11"]["scenarios"] = PROFILES["C11"]["scenarios"] + [_sc]
+PROFILES["C11"]["rule"] = DEFAULT_RULE + _txt
+
 # C17: the chaotic half (profile C17) and the calm half with brief link losses inside calls (profile C17b)
 PROFILES["C17"]["scenarios"] = [s1(quick_runs=1500, quick_budget_s=30), s1("C17b", quick_runs=1200, quick_budget_s=25, thorough_budget_s=600)]
 
